@@ -1,9 +1,14 @@
 #!/bin/sh
 # usage: tools/try_seed.sh <seed dir containing patch.diff> <property> [tier] [extra flags]
-# applies the seeded change to /repo, runs the check, restores /repo
+# applies the seeded change to a scratch worktree of /repo's HEAD (so /repo itself and checks running on it are
+# not disturbed), runs the check against it (GOSYM_REPO), removes the worktree
 d="$1"; p="$2"; t="${3:-quick}"; shift; shift; [ $# -gt 0 ] && shift
-cd /repo && git apply "$d/patch.diff" || { echo "patch does not apply"; exit 9; }
-trap 'cd /repo && git checkout -- .; exit 143' TERM INT HUP
-cd /verif && timeout 1800 ./check "$p" "$t" "$@" > /tmp/seed-$p.log 2>&1; rc=$?
-cd /repo && git checkout -- . && git status --short | grep -v '^??' | head -3
-echo "check exit=$rc"; grep -E "^(VIOLATION|KNOWN|UNCONFIRMED|INCONCLUSIVE|ENCODER|COVER|summary)" /tmp/seed-$p.log | cut -c1-260 | head -8
+R=/tmp/seedrepo-$$
+git -C /repo worktree add -q --detach "$R" HEAD || exit 9
+trap 'git -C /repo worktree remove --force "$R" 2>/dev/null; exit 143' TERM INT HUP
+(cd "$R" && git apply "$d/patch.diff") || { echo "patch does not apply"; git -C /repo worktree remove --force "$R"; exit 9; }
+log=/tmp/seed-$p-$$.log
+cd /verif && GOSYM_REPO="$R" timeout 1800 ./check "$p" "$t" "$@" > "$log" 2>&1; rc=$?
+git -C /repo worktree remove --force "$R"
+echo "check exit=$rc"; grep -E "^(VIOLATION|KNOWN|UNCONFIRMED|INCONCLUSIVE|ENCODER|COVER|HARNESS|summary)" "$log" | cut -c1-260 | head -8
+cp "$log" /tmp/seed-$p.log
